@@ -204,10 +204,67 @@ def multi_loop(aiu, nloops, keep_open, R, progs, st):
                                     'progs': progs})
 
 
+def alternating_loops(aiu, nloops, seq, R, st):
+    """One decorated batcher used from several LIVE loops in alternation (single thread: each step
+    runs one call to completion on the chosen loop; loops stay open, their batcher tasks pending)."""
+    from mc.vloop import IdleForever
+    world = SoloWorld()
+    set_world(world)
+    obs = B.Obs()
+    func = B.make_func(obs, world, {}, 'fwd', 0.0, 0.0)
+    deco = aiu.async_background_batcher(max_batch_size=3, batch_timeout=1.0, retention_timeout=R)(func)
+    loops = [world.new_loop() for _ in range(nloops)]
+    bad = []
+    for step, (li, k) in enumerate(seq):
+        loop = loops[li]
+        events.set_event_loop(loop)
+
+        async def main():
+            return await deco(k)
+        try:
+            v = loop.run_until_complete(main())
+        except IdleForever:
+            bad.append(('caller_never_answered', f'step {step}: call {k} on loop #{li} hangs (sequence {seq})'))
+            break
+        except BaseException as e:   # noqa
+            bad.append(('wrong_outcome', f'step {step}: call {k} on loop #{li} raised {type(e).__name__}: {e} '
+                                         f'(sequence {seq})'))
+            break
+        finally:
+            events.set_event_loop(None)
+        rec = next((b for b in obs.batches if b['bid'] == v.bid and any(o is v for _, o in b['yields'])), None)
+        if v.key != str(k) or rec is None:
+            bad.append(('wrong_outcome', f'step {step}: call {k} on loop #{li} got {v!r}'))
+        elif rec['loop'] is not loop:
+            bad.append(('served_by_other_loop', f'step {step}: call {k} on loop #{li} was answered by a batch that '
+                                                f'ran on loop #{loops.index(rec["loop"])} (sequence {seq})'))
+    for b in obs.batches:
+        pass
+    for loop in loops:
+        try:
+            from asyncio import runners
+            runners._cancel_all_tasks(loop)
+        except BaseException:   # noqa
+            pass
+        loop.close()
+    st.executions += 1
+    st.transitions += len(seq)
+    st.sig(('alt', nloops, tuple(seq), R, len(obs.batches), len(bad)))
+    for kind, detail in bad:
+        st.violation(kind, detail, {'mode': 'alternating', 'nloops': nloops, 'seq': seq, 'R': R})
+
+
 def run_case(item):
     from aiuti import asyncio as aiu
     st = Stats()
     kind = item[0]
+    if kind == 'alt':
+        _, nloops, R, ln = item
+        for loops_seq in itertools.product(range(nloops), repeat=ln):
+            for keys in itertools.product((0, 1), repeat=ln):
+                alternating_loops(aiu, nloops, list(zip(loops_seq, keys)), R, st)
+        st.sample({'mode': 'alternating live loops', 'loops': nloops, 'steps': ln, 'retention': R})
+        return st
     if kind == 'batcher':
         _, optnames = item
         opts = {k: BATCHER_OPTS[k] for k in optnames}
@@ -291,6 +348,7 @@ def main(tier):
     plan += [('batcher', c) for c in itertools.combinations(names, 2)] if tier != 'quick' else []
     plan += [('buffer', 0.25), ('buffer', 3.0), ('cache',)]
     plan += [('multi', n, ko, R) for n in (1, 2, 3) for ko in (False, True) for R in (0.0, 2.0)]
+    plan += [('alt', n, R, ln) for n in (2, 3) for R in (0.0, 2.0) for ln in ((2, 3, 4) if tier == 'quick' else (2, 3, 4, 5))]
     for st in common.pmap(run_case, plan):
         total.merge(st)
     rc = common.finish(
@@ -318,7 +376,9 @@ def replay(path):
         a = run_batcher(aiu, 'class', doc['opts'], prog, doc['batch_dur'])
         b = run_batcher(aiu, doc['form'], doc['opts'], prog, doc['batch_dur'])
         return 1 if a != b else 0
-    if doc['mode'] == 'multi_loop':
+    if doc['mode'] == 'alternating':
+        alternating_loops(aiu, doc['nloops'], [tuple(x) for x in doc['seq']], doc['R'], st)
+    elif doc['mode'] == 'multi_loop':
         multi_loop(aiu, doc['nloops'], doc['keep_open'], doc['R'], [[tuple(e) for e in p] for p in doc['progs']], st)
     elif doc['mode'] == 'buffer':
         prog = tuple(doc['prog'])
